@@ -130,7 +130,7 @@ def run():
                 "[[{k}, 1], [{k}, 2]].M", "[[{k}, 1], [2, 2], [{k}, 3]].M", "[{k}, 1, {k}].keyBy {{|e| e}}", "[{k}, {k}]@(%{{}}){{|e| [e, 1]}}", "[{k}, {k}]@({{}}){{|e| [e, 1]}}",
                 "%{{{k}: 1, **[[{k}, 2]].M}}", "[[{k}, 1]].M.bear({{}})"]
     consumers = ["{{|a: 0| a}}(**{d})", "{{|x, a: 0, y: 1| [x, a, y, \\_]}}(1, **{d})", "{{m: m{{|a: 0| a}}}}.m(**{d})", "<{{|a: 0| yield a}}>.new(**{d}).next", "{{**{d}}}", "%{{**{d}}}",
-                 "{{a: 5, **{d}}}.a", "{d}.keys", "{d}.items", "{d}.values", "{d}.S", "{d}.repr", "{d} == {d}", "{d}.bear({{}})", "{d}['a]", "{d}.a", "{d}.which('a)", "JSON.enc({d})",
+                 "{{a: 5, **{d}}}.a", "{d}.keys", "{d}.items", "{d}.values", "{d}.S", "{d}.repr", "{d} == {d}", "{d}.bear({{}})", "{d}['a]", "{d}.a", "{d}.which('a)", "JSON.dec({d}.S)",
                  "{d}@{{|k, v| [k, v]}}", "{d}.A", "{d}.O", "{d}.M", "[*{d}]", "{{|x| \\0}}(*{d})", "{d}.len", "{d}$([]){{|acc, e| [*acc, e]}}", "{d}.keys(private?: true)", "{d}.try.keys.A",
                  "\"#{{{d}}}\"", "{d}.bear({{}}).bear.keys", "%{{{d}: 1}}[{d}]", "{d}.patch(a: 1)", "{d}.del('a)",
                  "{d}[[7]]", "{d}[{{zz: 1}}]", "{d}.p", "{d}.has?([7])", "[{d}].S", "{d} != %{{}}"]
